@@ -5,7 +5,7 @@ EXTENDS Integers
 (* with a decimal text that parses to exactly that double.  Generated once from             *)
 (* lib/vf/numcases.py; the table is data, not logic.                                         *)
 IntVals == <<[kind |-> "int", dec |-> "-2147483648"], [kind |-> "int", dec |-> "-2147483647"], [kind |-> "int", dec |-> "-65537"], [kind |-> "int", dec |-> "-2"], [kind |-> "int", dec |-> "-1"], [kind |-> "int", dec |-> "0"], [kind |-> "int", dec |-> "1"], [kind |-> "int", dec |-> "2"], [kind |-> "int", dec |-> "3"], [kind |-> "int", dec |-> "31"], [kind |-> "int", dec |-> "32"], [kind |-> "int", dec |-> "255"], [kind |-> "int", dec |-> "256"], [kind |-> "int", dec |-> "65536"], [kind |-> "int", dec |-> "1073741824"], [kind |-> "int", dec |-> "2147483646"], [kind |-> "int", dec |-> "2147483647"]>>
-BigVals == <<[kind |-> "bigint", dec |-> "-170141183460469231731687303715884105728"], [kind |-> "bigint", dec |-> "-170141183460469231731687303715884105727"], [kind |-> "bigint", dec |-> "-18446744073709551616"], [kind |-> "bigint", dec |-> "-2147483649"], [kind |-> "bigint", dec |-> "-1"], [kind |-> "bigint", dec |-> "0"], [kind |-> "bigint", dec |-> "1"], [kind |-> "bigint", dec |-> "2"], [kind |-> "bigint", dec |-> "127"], [kind |-> "bigint", dec |-> "128"], [kind |-> "bigint", dec |-> "2147483648"], [kind |-> "bigint", dec |-> "9007199254740993"], [kind |-> "bigint", dec |-> "9223372036854775808"], [kind |-> "bigint", dec |-> "18446744073709551616"], [kind |-> "bigint", dec |-> "85070591730234615865843651857942052864"], [kind |-> "bigint", dec |-> "170141183460469231731687303715884105726"], [kind |-> "bigint", dec |-> "170141183460469231731687303715884105727"]>>
+BigVals == <<[kind |-> "bigint", dec |-> "-170141183460469231731687303715884105728"], [kind |-> "bigint", dec |-> "-170141183460469231731687303715884105727"], [kind |-> "bigint", dec |-> "-18446744073709551616"], [kind |-> "bigint", dec |-> "-2147483649"], [kind |-> "bigint", dec |-> "-1"], [kind |-> "bigint", dec |-> "0"], [kind |-> "bigint", dec |-> "1"], [kind |-> "bigint", dec |-> "2"], [kind |-> "bigint", dec |-> "127"], [kind |-> "bigint", dec |-> "128"], [kind |-> "bigint", dec |-> "2147483648"], [kind |-> "bigint", dec |-> "4294967296"], [kind |-> "bigint", dec |-> "4294967297"], [kind |-> "bigint", dec |-> "-4294967295"], [kind |-> "bigint", dec |-> "18446744073709551618"], [kind |-> "bigint", dec |-> "9007199254740993"], [kind |-> "bigint", dec |-> "9223372036854775808"], [kind |-> "bigint", dec |-> "18446744073709551616"], [kind |-> "bigint", dec |-> "85070591730234615865843651857942052864"], [kind |-> "bigint", dec |-> "170141183460469231731687303715884105726"], [kind |-> "bigint", dec |-> "170141183460469231731687303715884105727"]>>
 ByteVals == <<[kind |-> "byte", dec |-> "0"], [kind |-> "byte", dec |-> "1"], [kind |-> "byte", dec |-> "2"], [kind |-> "byte", dec |-> "7"], [kind |-> "byte", dec |-> "8"], [kind |-> "byte", dec |-> "127"], [kind |-> "byte", dec |-> "128"], [kind |-> "byte", dec |-> "254"], [kind |-> "byte", dec |-> "255"]>>
 FloatVals == <<[kind |-> "float", cls |-> "fin", neg |-> FALSE, m |-> "0", e |-> 0, txt |-> "0.0"],
       [kind |-> "float", cls |-> "fin", neg |-> FALSE, m |-> "4503599627370496", e |-> -53, txt |-> "0.5"],
